@@ -160,16 +160,14 @@ func c32Retention(t *testing.T, c vt.Case) vt.Event {
 	tb := time.Now()
 	err := compact.ApplyRetentionPolicyByResolution(ctx, NopLogger(), bkt, metas, byRes, prometheus.NewCounter(prometheus.CounterOpts{Name: "x"}))
 	ta := time.Now()
-	if err != nil {
-		t.Fatalf("retention: %v", err)
-	}
+	// an error of the procedure is recorded; whatever it did to the bucket is judged
 	objs := bkt.Objects()
 	out := make([]map[string]any, 0, len(blks))
 	for _, b := range blks {
 		_, marked := objs[path.Join(b.id.String(), MarkFile)]
 		out = append(out, map[string]any{"age": msFloor(tb) - b.maxt, "lim": b.lim, "flag": false, "did": marked})
 	}
-	return vt.Event{"proc": "retention", "dt": msCeil(ta) - msFloor(tb), "blocks": out}
+	return vt.Event{"proc": "retention", "dt": msCeil(ta) - msFloor(tb), "blocks": out, "err": err != nil}
 }
 
 func c32Cleaner(t *testing.T, c vt.Case) vt.Event {
@@ -229,9 +227,7 @@ func c32Cleaner(t *testing.T, c vt.Case) vt.Event {
 	tb := time.Now()
 	_, err := cl.DeleteMarkedBlocks(ctx)
 	ta := time.Now()
-	if err != nil {
-		t.Fatalf("cleaner: %v", err)
-	}
+	// an error of the procedure is recorded; whatever it did to the bucket is judged
 	objs := bkt.Objects()
 	out := make([]map[string]any, 0, len(blks))
 	for _, b := range blks {
@@ -243,7 +239,7 @@ func c32Cleaner(t *testing.T, c vt.Case) vt.Event {
 		}
 		out = append(out, map[string]any{"age": msFloor(tb) - b.dt*1000, "lim": delay, "flag": false, "did": n < 4})
 	}
-	return vt.Event{"proc": "cleaner", "dt": msCeil(ta) - msFloor(tb), "blocks": out}
+	return vt.Event{"proc": "cleaner", "dt": msCeil(ta) - msFloor(tb), "blocks": out, "err": err != nil}
 }
 
 func c32Partial(t *testing.T, c vt.Case) vt.Event {
@@ -310,5 +306,5 @@ func c32Partial(t *testing.T, c vt.Case) vt.Event {
 		}
 		out = append(out, map[string]any{"age": msFloor(tb) - b.lm, "lim": thr, "flag": b.marked, "did": na < nb})
 	}
-	return vt.Event{"proc": "partial", "dt": msCeil(ta) - msFloor(tb), "blocks": out}
+	return vt.Event{"proc": "partial", "dt": msCeil(ta) - msFloor(tb), "blocks": out, "err": false}
 }
